@@ -420,7 +420,13 @@ func runRate(sc Scenario, tr *Trace, seed int64) {
 	cfg := M{"tps": rc.tps, "cap": rc.cap, "level": rc.level, "qualified": boolOr(sc.Cfg, "qualified", true),
 		"approx": boolOr(sc.Cfg, "approx", false)}
 	var rates []any
-	for _, r := range rc.rates {
+	contractRates := rc.rates
+	if cs := strOr(sc.Cfg, "contractsrc", ""); cs != "" { // every request comes from this source: the rates that apply are ITS rates
+		if r, ok := rc.srcRates[cs]; ok {
+			contractRates = r
+		}
+	}
+	for _, r := range contractRates {
 		rates = append(rates, M{"p": num(r, "p"), "a": num(r, "a"), "b": num(r, "b")})
 	}
 	cfg["rates"] = rates
